@@ -600,6 +600,7 @@ def run(ck):
           + ('' if not bad_ref else ' — other cause: `%s`' % bad_ref[0][1]))
 
     _every_field_on_every_accept(ck, P)
+    _payload_refusals_closed(ck, P)
 
     # ---- the codec keeps no state between calls ---------------------------------------------------------------------------------
     from props.C19 import impure_sites
@@ -706,3 +707,29 @@ def _every_field_on_every_accept(ck, P):
                 ck.ob('C15.decode', 'C15.decode/assigned-before-accept/%s' % m_.replace(NS, ''), not late, f.loc(late[0][0]) if late else f.loc(writes[0]),
                       'every return of the decoded payload is reached only after %s was assigned from the wire' % m_.replace(NS, ''), late[0][1] if late else None)
     ck.floor('C15.decode', 'payload fields assigned by the parsers', n, 17)
+
+
+def _payload_refusals_closed(ck, P):
+    """The payload parsers refuse (nullopt) only because too few bytes remain — `remaining < <needed>` — or for an unknown type
+    (the switch default): any other reason rejects frames that encode() produces (a size ceiling, a content check)."""
+    from props.common import refusal_reasons
+    n = 0
+    for q in (AN + 'decode_payload_v1', AN + 'parse_announce_payload'):
+        f = P.fn(q)
+        extra = []
+        for r_, conds in refusal_reasons(f, lambda r: 'nullopt' in f.text(r)):
+            n += 1
+            if conds is None:
+                # unconditional refusal: only as the default of the type switch
+                in_default = any(f.nodes[a]['k'] == 'DefaultStmt' for a in f.ancestors(r_))
+                if not in_default:
+                    extra.append((r_, 'unconditional'))
+                continue
+            for c_ in conds:
+                ok = c_[0] in ('<', '>') and ("'remaining'" in repr(c_) or "'size'" in repr(c_)) or \
+                    (c_[0] == 'u!' and "'has_value'" in repr(c_))        # a nested parser (announce) refused
+                if not ok:
+                    extra.append((r_, repr(c_)[:90]))
+        ck.ob('C15.accept', 'C15.accept/%s-refusals-closed' % q.split('::')[-1], not extra, f.loc(extra[0][0]) if extra else f.loc(),
+              '%s refuses a payload only because too few bytes remain (or the type is unknown)' % q.split('::')[-1] + ('' if not extra else ' — other cause: %s' % extra[0][1]))
+    ck.floor('C15.accept', 'refusing exits of the payload parsers', n, 8)
